@@ -77,12 +77,19 @@ class _SourceReader:
             data, self._head = self._head, b""
             return data + self._read_all()
         data, self._head = self._head[:size], self._head[size:]
-        while len(data) < size:
-            chunk = self._read_some(size - len(data))
+        missing = size - len(data)
+        if not missing:
+            return data
+        # chunks are joined once: appending to bytes would copy a large frame again
+        # for every short read
+        chunks = [data]
+        while missing > 0:
+            chunk = self._read_some(missing)
             if not chunk:
                 break
-            data += chunk
-        return data
+            chunks.append(chunk)
+            missing -= len(chunk)
+        return b"".join(chunks)
 
     def _read_some(self, size: int) -> bytes:
         try:
